@@ -67,7 +67,7 @@ def check_property(prop, tier, jobs, use_cache=True):
     from eqlvc.__main__ import run_tasks, _verif_hash, _repo_hash
     seed = int(os.environ.get('VERIF_SEED', '0') or 0)
     src = SourceIndex()
-    classes = [c for c in reg.all_contracts() if prop in c.props]
+    classes = [c for c in reg.all_contracts() if prop in c.props and tier in getattr(c, 'tiers', ('quick', 'thorough'))]
     na = reg.not_applicable().get(prop) if hasattr(reg, 'not_applicable') else None
     if not classes:
         print(f"UNDECIDED property={prop} no contract serves this property")
@@ -91,7 +91,7 @@ def check_property(prop, tier, jobs, use_cache=True):
     fresh = run_tasks([t for t, _ in todo], jobs)
     for (t, p), r in zip(todo, fresh):
         results[t] = r
-        if r[1].get('status') != 'crash':
+        if r[1].get('status') == 'ok' and not any(x['status'] == 'unknown' for x in r[0]):
             json.dump(r, open(p + '.tmp', 'w'))
             os.replace(p + '.tmp', p)
     # bounded stand-ins / native parts of this property
